@@ -59,6 +59,10 @@ func getRequestHeaderValue(r *http.Request, name string) *value.String {
 	name, key, _ = strings.Cut(name, ":")
 	v := r.Header.Get(name)
 	if v == "" {
+		// An empty header has no sub-fields
+		if key != "" {
+			return &value.String{IsNotSet: true}
+		}
 		return &value.String{IsNotSet: !r.IsAssigned(name)}
 	}
 
@@ -84,6 +88,10 @@ func getResponseHeaderValue(r *http.Response, name string) *value.String {
 	name, key, _ = strings.Cut(name, ":")
 	v := r.Header.Get(name)
 	if v == "" {
+		// An empty header has no sub-fields
+		if key != "" {
+			return &value.String{IsNotSet: true}
+		}
 		return &value.String{IsNotSet: !r.IsAssigned(name)}
 	}
 
